@@ -8,6 +8,7 @@ size test before `Resize`, a loop bound, the step `if w == 0 { w = 1 }`, the arg
 cursor clamp `col > vt.margin.right` — changes the generated term and either breaks `body_Draw` or is a neutral rewrite.
 -/
 import VaxisModel.Lemmas.EmuDrawBody
+import VaxisModel.Props.C05Draw
 
 namespace VaxisModel.Props.C05DrawBody
 open VaxisModel.Model.Emu VaxisModel.Model.EmuDraw VaxisModel.Model.EmuDrawBody VaxisModel.Lemmas.EmuDrawBody VaxisModel.Gen
@@ -19,6 +20,18 @@ theorem draw_fully_recognised : recognised TermDraw.stmt_Draw = true ∧ TermDra
 theorem body_Draw (e : Emu) (winW winH : Int) (focused : Bool) :
     evalDraw TermDraw.stmt_Draw e winW winH focused = drawG true true Fixes.current e winW winH focused :=
   body_Draw_eq e winW winH focused
+
+/-- **The property's Draw clause, stated of the body translated from the source**: for every good emulator state, every window
+    size up to 65535 (zero and negative included) and either focus flag, running Draw's translated body neither panics nor hangs,
+    every `SetCell` it makes and the cursor it shows lie inside the window, and the emulator stays well-formed. -/
+theorem translated_draw_clipped {e : Emu} {rows cols : Nat} (h : Lemmas.Emu.EmuInv e rows cols) (d : Lemmas.Emu.Dim rows cols)
+    (winW winH : Int) (focused : Bool) (hw2 : winW ≤ 65535) (hh2 : winH ≤ 65535) :
+    ∃ r, evalDraw TermDraw.stmt_Draw e winW winH focused = .ok r ∧
+      (∀ c ∈ r.2.1, 0 ≤ c.col ∧ c.col < winW ∧ 0 ≤ c.row ∧ c.row < winH) ∧
+      (∀ p, r.2.2 = some p → 0 ≤ p.1 ∧ p.1 < winW ∧ 0 ≤ p.2 ∧ p.2 < winH) ∧
+      ∃ rows' cols', Lemmas.Emu.EmuInv r.1 rows' cols' ∧ Lemmas.Emu.Dim rows' cols' := by
+  rw [body_Draw]
+  exact VaxisModel.Props.C05Draw.drawG_clipped h d winW winH focused hw2 hh2
 
 /-- the loop over `vt.graphics` (sixel images; not modelled: the emulator model has no graphics) is the text the translator's
     `graphics` statement was written against -/
